@@ -290,6 +290,17 @@ func (e *Env) Report(ctx context.Context, client, src int, l *Layer, blocking bo
 	return res, err
 }
 
+// ReportInPlace: source src rewrites its one persistent value object with layer l and reports the same pointer
+// (blocking); recorded like a blocking report of l.
+func (e *Env) ReportInPlace(ctx context.Context, client, src int, l *Layer) (int, error) {
+	call := e.S.Tick()
+	err := e.Srcs[src].ReportInPlace(ctx, l)
+	ret := e.S.Tick()
+	res, es := ClassifyReportErr(err, true)
+	e.H.Add(client, In{Kind: OpReport, Src: src, Layer: l, Blocking: true}, call, Out{Res: res, Err: es}, ret)
+	return res, err
+}
+
 // ReReport makes source src hand over the identical value object of its
 // previous report (layer l) again, and records it like a report of l.
 func (e *Env) ReReport(ctx context.Context, client, src int, l *Layer, blocking bool) (int, error) {
